@@ -47,7 +47,7 @@ Definition sessionA : list call :=
     {| c_proof := p2; c_src := 3; c_tgt := 4; c_salh := A3; c_talh := A4 |};
     {| c_proof := p3; c_src := 2; c_tgt := 4; c_salh := X; c_talh := A4 |} ].
 
-Theorem session_consistency_v1_refuted : session_inconsistent (verify_dual_proof Hs).
+Theorem session_consistency_v1_refuted : session_inconsistent (verify_dual_proof_gen Hs false).
 Proof.
   exists (2, A2), sessionA, 2, A2, X. split; [|split; [|split]].
   - cbn [session sessionA]. unfold accepted. cbn [c_proof c_src c_tgt c_salh c_talh].
@@ -115,7 +115,7 @@ Proof.
 Qed.
 
 (* the same session is of course accepted by the verifier as it stands *)
-Theorem session_consistency_v1_lagging_refuted : session_inconsistent (verify_dual_proof Hs).
+Theorem session_consistency_v1_lagging_refuted : session_inconsistent (verify_dual_proof_gen Hs false).
 Proof.
   exists (2, A2), sessionB, 2, A2, X. split; [|split; [|split]].
   - cbn [session sessionB]. unfold accepted. cbn [c_proof c_src c_tgt c_salh c_talh].
